@@ -3616,7 +3616,20 @@ class Fused(Blockwise):
             else:
                 graph[(_expr._name, index)] = _expr._task(index)
 
-        for i, dep in enumerate(self.dependencies()):
+        # The fused sub-graph refers to its external dependencies by the
+        # names they had when the group was fused.  The dependency operands
+        # may have been rewritten (and therefore renamed) since then, e.g.
+        # when an already optimized expression is optimized again, so bind
+        # the original keys positionally to the current dependencies.
+        local_names = {_expr._name for _expr in self.exprs}
+        original_deps = [
+            operand
+            for _expr in self.exprs
+            for operand in _expr.dependencies()
+            if operand._name not in local_names
+        ]
+        assert len(original_deps) == len(self.dependencies())
+        for i, dep in enumerate(original_deps):
             graph[self._blockwise_arg(dep, index)] = "_" + str(i)
 
         return (
